@@ -49,7 +49,7 @@ Line(good) ==
     /\ Step([op |-> "line", good |-> good])
 
 \* kind: "ok" | "noversion" (refused) | "badcomp" (unknown compression: ignored)
-\*       | "notrequest" (some other message first) | "garbage" (not a message) | "malformed" (see Hostile)
+\*       | "notrequest" (some other message first) | "disguised" (another message that also carries a connect request) | "garbage" (not a message) | "malformed" (see Hostile)
 Request(kind) ==
     /\ Budget /\ hs = "request"
     /\ CASE kind \in {"ok", "badcomp"} -> hs' = "open" /\ wrote' = wrote \o <<"line", "accept">> /\ UNCHANGED <<live, ended>>
@@ -106,7 +106,7 @@ Hostile(kind) ==
 HostileKinds == {"unknowncode", "nestedbatch", "garbage", "badmessage", "truncated", "oversized", "eof", "handshakeagain", "malformed"}
 
 Next == \/ \E g \in BOOLEAN : Line(g)
-        \/ \E k \in {"ok", "badcomp", "noversion", "notrequest", "garbage", "malformed"} : Request(k)
+        \/ \E k \in {"ok", "badcomp", "noversion", "notrequest", "disguised", "garbage", "malformed"} : Request(k)
         \/ \E i \in Ids : Open(i) \/ OpenCloseBatch(i) \/ Close(i) \/ Traffic("data", i) \/ Traffic("window", i)
         \/ \E k \in HostileKinds : Hostile(k)
 
